@@ -247,6 +247,33 @@ def export_case(tmp):
                     continue
                 if not same3(a, b):
                     rec["features_ok"] = False
+        # a rating DIRECTORY with two containers that rated the same raw
+        # curve with different fits: every exported row carries the
+        # features of the fit that was rated
+        ddir = tmpd / "two_containers"
+        ddir.mkdir()
+        exp2 = []
+        with warnings.catch_warnings():
+            warnings.simplefilter("ignore")
+            for fname, ftag, rating in (("a.h5", "f1", 3), ("b.h5", "f2", 8)):
+                idnt = cc.fitted("B1", ftag)
+                rio.save_hdf5(ddir / fname, idnt, rating, "verif", "c")
+                exp2.append((IndentationRater.compute_features(idnt),
+                             rating))
+            rio.RateManager(ddir).export_training_set(tmpd / "ts_two")
+            X3, y3 = IndentationRater.load_training_set(
+                tmpd / "ts_two", which_type="all", replace_inf=False,
+                impute_zero_rated_nan=False, remove_nan=False)
+        if X3.shape[0] != 2 or sorted(int(v) for v in y3) != [3, 8]:
+            rec["order_ok"] = False
+        else:
+            for row, resp in zip(X3, y3):
+                wantf = [f for f, r in exp2 if r == int(resp)][0]
+                for a, b in zip(row, wantf):
+                    if np.isnan(a) and np.isnan(b):
+                        continue
+                    if not same3(a, b):
+                        rec["features_ok"] = False
     except BaseException as exc:
         if isinstance(exc, (KeyboardInterrupt, SystemExit)):
             raise
